@@ -2,7 +2,8 @@
    line written by the Go harness) to the canonical text of the model's
    observable.  Used identically by the extracted OCaml driver and by the
    in-Coq vm_compute evaluation. *)
-From Lungo.Model Require Import Compare.
+From Lungo.Model Require Import Compare RunAccess ApiOps RunOplog RunSpec RunSort File RunMatch Fs FsRun Stream.
+From Lungo.Spec Require Import RunRef.
 From Lungo.Model Require Import Gridfs.
 Open Scope string_scope.
 
@@ -13,7 +14,7 @@ Definition run_cmp (x : sexp) : option string :=
   match x with
   | SList [SAtom "cmp"; a; b] =>
       match value_of_sexp a, value_of_sexp b with
-      | Some a', Some b' => Some (show_Z (sign_of (compare a' b')))
+      | Some a', Some b' => Some (show_Z (sign_of (Lungo.Model.Compare.compare a' b')))
       | _, _ => Some bad
       end
   | SList [SAtom "echo"; a] =>
@@ -26,6 +27,18 @@ Definition run_cmp (x : sexp) : option string :=
 
 Definition runners : list (sexp -> option string) :=
   [ run_cmp
+  ; run_access
+  ; run_api_inst
+  ; run_oplog
+  ; run_specdiff_inst
+  ; run_sort
+  ; run_codec
+  ; run_file
+  ; run_match
+  ; run_matchref
+  ; run_fs
+  ; run_stream
+  ; run_sched
   ; run_gridfs
   ].
 
